@@ -38,6 +38,10 @@ fn lark_families() -> Vec<(Gram, Vec<&'static str>, Option<Vec<&'static str>>)> 
         (Gram::Lark("start: /.*/\n".into()), vec!["any thing\tat all \r", "\t\t", " \t", "thing"], None),
         (Gram::Lark("start: /[0-9]+/ | \"abc\" | \"  \"\n".into()), vec!["12345", "abc", "  ", "ab", "34", " \t", "\n"], Some(vec!["[a-z]+", "[0-9]+", "[ \\t\\n]+"])),
         (Gram::Lark("start: W (\" \" W)*\nW: /[a-z]+/ | /[0-9]{1,3}/\n".into()), vec!["abc 12 de 345", "bc", "12", " d", "e 3"], Some(vec!["[a-z]+", "[0-9]+", "[a-z0-9]+", " +"])),
+        // a lazy lexeme alive together with a greedy lexeme that contains a slice: the lazy one may end inside a token
+        (Gram::Lark("start: TEXT | code\nTEXT: /[^\"\\\\\\x00-\\x1F\\x7F]+/\ncode[lazy]: /[a-z]+;/\n".into()), vec!["ab;", "a;b", "ab;cd", "x; y", ";b", "abc", "b;"], None),
+        (Gram::Lark("start: (W | stop)+ \".\"\nW: /[a-z ]+/\nstop[lazy]: /[a-z]*!/\n".into()), vec!["ab cd!ef!.", "d!e", "!.", "b c", "f!", "a!b"], Some(vec!["[a-z]+", "[a-z !]+", "[a-z ]+"])),
+        (Gram::Lark("start: A | B \"x\"\nA: /[a-z0-9]+/\nB[lazy]: /[a-z]*[0-9]/\n".into()), vec!["abc1x", "c1", "1x", "ab12", "b1x", "a1b"], Some(vec!["[a-z]+", "[a-z0-9]+", "[0-9]+"])),
         (Gram::Lark("start: \"<\" /[a-z ]+/ \">\" /[0-9\\t]*/\n".into()), vec!["<hello world>12\t3", "lo w", "\t3", ">1"], Some(vec!["[a-z]+", "[a-z ]+", "[0-9]+", "[ \\t]+"])),
     ]
 }
